@@ -109,22 +109,29 @@ def getCpuList (t : HTable) (bb : BBox) (lmax levelmax ncpu ndim : Nat) (bk : Li
   let bitLength := bitLengthOf bb lmax minCube
   collect ((cubes bb bitLength).map (cubeRange t bitLength levelmax ncpu ndim bk))
 
+/-- one axis of `hilbert_cpu_list`: the selection `S` (the AND of the functions given for `position_<c>`) is evaluated
+    on the cell centres of level `min levelmax 18`; the box runs from the first to the last accepted centre, padded by half
+    a sampled cell — by one and a half when the output is deeper than the sampling level — and clipped to the domain.
+    Fractions of the box size. -/
+def axisBox (S : Rat → Bool) (boxSize : Rat) (levelmax : Nat) : Rat × Rat :=
+  let ncells : Nat := 2 ^ (min levelmax 18)
+  let half : Rat := boxSize / (2 * (ncells : Rat))
+  let pad : Rat := if levelmax ≤ 18 then half else 3 * half
+  let centre (i : Nat) : Rat := half * (2 * (i : Rat) + 1)
+  let idx := (List.range ncells).filter fun i => S (centre i)
+  match idx.head?, idx.getLast? with
+  | some lo, some hi => (max ((centre lo - pad) / boxSize) 0, min ((centre hi + pad) / boxSize) 1)
+  | _, _ => (0, 0)     -- the code raises on an empty sample (outside the property's quantifier)
+
 /-- `hilbert_cpu_list`: `none` = no pre-selection (all cpus) -/
 def hilbertCpuList (t : HTable) (ordering : String) (preds : List Loader.Pred) (boxSize : Rat) (levelmax lmax ncpu ndim : Nat)
     (bk : List Nat) (isDict : Bool) (minCube : Nat := 0) : Option (List Nat) :=
   if ordering != "hilbert" then none
   else if !isDict then none
   else
-    let ncells : Nat := 2 ^ (min levelmax 18)
-    let half : Rat := boxSize / (2 * (ncells : Rat))
-    let centre (i : Nat) : Rat := half * (2 * (i : Rat) + 1)
     let axis (name : String) : Option (Rat × Rat) :=
       let ps := preds.filter (·.var == name)
-      if ps.isEmpty then none else
-      let idx := (List.range ncells).filter fun i => ps.all (·.eval (centre i))
-      match idx.head?, idx.getLast? with
-      | some lo, some hi => some ((centre lo - half) / boxSize, (centre hi + half) / boxSize)
-      | _, _ => some (0, 0)     -- the code raises on an empty sample (outside the property's quantifier)
+      if ps.isEmpty then none else some (axisBox (fun c => ps.all (·.eval c)) boxSize levelmax)
     let ax := axis "position_x"
     let ay := axis "position_y"
     let az := axis "position_z"
